@@ -26,7 +26,7 @@ def join_kwargs(case):
               l_out_prefix=case.get("prefix", ["l_", "r_"])[0],
               r_out_prefix=case.get("prefix", ["l_", "r_"])[1],
               out_sim_score=case.get("out_sim_score", True),
-              n_jobs=case.get("n_jobs", 1), show_progress=False)
+              n_jobs=case.get("n_jobs", 1), show_progress=bool(case.get("show_progress", False)))
     if case["measure"] not in ("OVERLAP", "EDIT_DISTANCE"):
         kw["allow_empty"] = case.get("allow_empty", True)
     return kw
@@ -63,7 +63,7 @@ def run_filter_tables(ctx, f, case, L, R, real=False, **over):
     kw = dict(l_out_attrs=case.get("l_out"), r_out_attrs=case.get("r_out"),
               l_out_prefix=case.get("prefix", ["l_", "r_"])[0],
               r_out_prefix=case.get("prefix", ["l_", "r_"])[1],
-              n_jobs=case.get("n_jobs", 1), show_progress=False)
+              n_jobs=case.get("n_jobs", 1), show_progress=bool(case.get("show_progress", False)))
     kw.update(over)
     with backend(kw["n_jobs"], real):
         return ctx.lib(f.filter_tables, L, R, case["L"]["key"], case["R"]["key"],
@@ -74,7 +74,7 @@ def run_filter_candset(ctx, f, case, C, cnames, L, R, n_jobs=1, real=False):
     with backend(n_jobs, real):
         return ctx.lib(f.filter_candset, C, cnames[0], cnames[1], L, R, case["L"]["key"],
                        case["R"]["key"], case["L"]["attr"], case["R"]["attr"],
-                       n_jobs=n_jobs, show_progress=False)
+                       n_jobs=n_jobs, show_progress=bool(case.get("show_progress", False)))
 
 
 def lvals(case):
